@@ -139,8 +139,12 @@ func c18Batch(c *Ctx, r *rng.R, bi int) error {
 		}
 	}
 	for k := 0; k < nPer; k++ {
-		s := both.Samples[r.Intn(len(both.Samples)+1)%max(1, len(both.Samples))]
-		subs = append(subs, hc.ConcSub{Pkg: both.Pkg.Name, Lex: true, Input: []byte(s.Input + " " + s.Input)})
+		in := "?"
+		if len(both.Samples) > 0 {
+			s := both.Samples[r.Intn(len(both.Samples))]
+			in = s.Input + " " + s.Input
+		}
+		subs = append(subs, hc.ConcSub{Pkg: both.Pkg.Name, Lex: true, Input: []byte(in)})
 		var toks [][2]int
 		for i := 0; i < 1+r.Intn(8); i++ {
 			toks = append(toks, [2]int{2 + r.Intn(max(1, len(both.Names))), 0})
